@@ -82,6 +82,7 @@ func runC03(c *Ctx) {
 	ruleStrings(c, "R3.7")
 	r.Rule("R3.8", "cursor discipline (= R4.4): in ReadWriter.Read / Write the byte cursor advances only by the count returned by readValue / writeValue for that cursor, so every field byte goes through the per-type codec of R3.2 (no bulk copy or side path)", 2)
 	ruleCursor(c, "R3.8")
+	ruleTypeAdmission(c, "R3.9")
 }
 
 // R3.1
@@ -845,4 +846,68 @@ func maxBits(v ssa.Value) int {
 		return min(w, maxBits(x.X))
 	}
 	return w
+}
+
+// ruleTypeAdmission (R3.9 / R17.9): which Go field types Initialize admits. The per-type codecs (readValue /
+// writeValue) dispatch on the exact Go types *uint8 … *float64 / *string, so a field is encodable only if its type IS
+// one of those: the wire type stored in a field descriptor comes from fieldTypeFromGo looked up by the type's name
+// (or by the mavenum tag for enums) and a zero result is an error. Admitting by reflect.Kind (or any other table)
+// lets named types through that the codecs then skip silently: payload shifted, field decoded as 0.
+func ruleTypeAdmission(c *Ctx, rule string) {
+	r := c.R
+	r.Rule(rule, "type admission: the wire type of every field descriptor built by ReadWriter.Initialize is fieldTypeFromGo[<Go type name>] or fieldTypeFromGo[<mavenum tag>], and the zero result is refused with an error — "+
+		"the same exact-type criterion by which readValue / writeValue dispatch", 1)
+	ini := c.Fn("pkg/message", "ReadWriter.Initialize")
+	if ini == nil {
+		return
+	}
+	var probs []string
+	n := 0
+	for _, a := range litAllocs(ini, "message.decEncoderField") {
+		v := litFields(a)["ftype"]
+		if v == nil {
+			continue
+		}
+		n++
+		seen := map[ssa.Value]bool{}
+		var walk func(x ssa.Value)
+		walk = func(x ssa.Value) {
+			if seen[x] {
+				return
+			}
+			seen[x] = true
+			switch y := x.(type) {
+			case *ssa.Phi:
+				for _, e := range y.Edges {
+					walk(e)
+				}
+			case *ssa.Lookup:
+				idx := ex(y.Index)
+				if ex(y.X) != "message.fieldTypeFromGo" || !(strings.Contains(idx, "(reflect.Type).Name(") || strings.Contains(idx, "\"mavenum\"")) {
+					probs = append(probs, fmt.Sprintf("the wire type comes from %s[%s] (%s), not from fieldTypeFromGo keyed by the Go type's name / the mavenum tag: types the per-type codecs do not dispatch on are admitted", ex(y.X), idx, c.Pos(y.Pos())))
+				}
+				// zero → error
+				okZero := false
+				for _, iff := range ifsIn(ini) {
+					if tb, _, hit := succWhen(iff, "("+ex(y)+" == 0)"); hit {
+						if ret, isRet := tb.Instrs[len(tb.Instrs)-1].(*ssa.Return); isRet && len(ret.Results) == 1 && !isNilConst(ret.Results[0]) {
+							okZero = true
+						}
+					}
+				}
+				if !okZero {
+					probs = append(probs, "an unknown type name (lookup result 0) is not refused with an error at "+c.Pos(y.Pos()))
+				}
+			case *ssa.Const:
+				if k, ok := constInt(y); !ok || k == 0 {
+					probs = append(probs, "a field descriptor can carry the zero wire type")
+				}
+			default:
+				probs = append(probs, "the wire type of a field descriptor is "+shortErr(x)+", not a fieldTypeFromGo lookup")
+			}
+		}
+		walk(v)
+	}
+	sort.Strings(probs)
+	r.Check(len(probs) == 0 && n > 0, rule, "Initialize type admission", c.Pos(ini.Pos()), "wire type = fieldTypeFromGo[type name | mavenum tag], zero refused", orStr(strings.Join(probs, "; "), "no field descriptor literal found in Initialize"))
 }
